@@ -1087,7 +1087,7 @@ def C10(ck):
         # (b) live differential against the executable reference: fresh (input, configuration) pairs
         n = 1500 if T else 220
         shapes = ['random', 'text', 'utf8', 'utf8wide', 'dna', 'dnalines', 'x86', 'wav', 'bmp', 'runs', 'smallalpha', 'skew', 'zeros', 'gzipmagic',
-                  'mixed', 'ramp', 'numeric', 'html', 'sparse', 'exe']
+                  'mixed', 'ramp', 'numeric', 'html', 'sparse', 'exe', 'manual', 'manual', 'utf8cjk', 'crlfsplit', 'magictext']
         reqs = []
         for i in range(n):
             k = rnd.randrange(4)
@@ -1132,6 +1132,17 @@ def C10(ck):
                 size = (4 << 20) + 100001 + 16 * ei + si
                 reqs.append({'transform': 'NONE', 'entropy': e, 'block': 8 << 20, 'jobs': 1, 'ck': [0, 32][si], 'hint': -1, 'shape': shape,
                              'seed': ck.seed * 100000 + i, 'size': size, 'out': os.path.join(base, 'l%05d.knz' % i)})
+                i += 1
+        # (b5) paginated text (form feeds / vertical tabs behind fresh words) through the text transform and the presets that contain it;
+        # the bit-wise coders with the largest context tables (selected by the declared block size: 64 and 256 MiB) on a small input
+        for t5, e5 in (('TEXT', 'HUFFMAN'), ('TEXT', 'FPAQ'), ('TEXT+UTF+PACK+MM+LZX', 'HUFFMAN'), ('TEXT+UTF+BWT+RANK+ZRLT', 'ANS0')):
+            reqs.append({'transform': t5, 'entropy': e5, 'block': 65536, 'jobs': 1, 'ck': 32, 'hint': -1, 'shape': 'manual',
+                         'seed': ck.seed * 100000 + i, 'size': 46000 + i % 7, 'out': os.path.join(base, 'l%05d.knz' % i)})
+            i += 1
+        for e5 in ('TPAQ', 'TPAQX'):
+            for b5 in ((64 << 20, 256 << 20) if T else (256 << 20,)):
+                reqs.append({'transform': 'NONE', 'entropy': e5, 'block': b5, 'jobs': 1, 'ck': 32, 'hint': -1, 'shape': 'text',
+                             'seed': ck.seed * 100000 + i, 'size': 24000, 'out': os.path.join(base, 'l%05d.knz' % i)})
                 i += 1
         # (b4) dictionaries of the text transform that fill up: word lists of several hundred thousand distinct words in one block
         for si, (size, block) in enumerate([(3600000, 4 << 20), (5600000, 8 << 20)] if T else [(3600000, 4 << 20)]):
